@@ -21,9 +21,11 @@ EVNAMES = {'M': 'malloc', 'C': 'calloc', 'R': 'realloc', 'F': 'free', 'U': 'use-
 def build(variant='plain'):
     # the asan variant of vlib also enables UBSan, which stops at idioms the library relies on (unaligned hash loads,
     # shifts of negative values): only AddressSanitizer is wanted here
+    # harness/c17_api.h is #included, not listed as a source: its hash goes into the flags so that an edit rebuilds
+    hh = vlib.file_hash([os.path.join(vlib.VERIF, 'harness', 'c17_api.h')])
     impl = vlib.build_harness('c17_alloc', ['c17_alloc.c'], variant=variant, units=('mir', 'mir-gen', 'c2mir'),
                               defs=['-fno-sanitize=undefined'] if variant == 'asan' else [],
-                              extra_flags=['-Wl,' + ','.join('--wrap=' + w for w in WRAP)])
+                              extra_flags=['-Wl,' + ','.join('--wrap=' + w for w in WRAP), '-DC17_API_H_HASH=0x' + hh[:8]])
     model = vlib.ocaml_build('c17', 'Extract_C17', ['c17x'], 'driver_c17.ml')
     return impl, model
 
@@ -367,6 +369,7 @@ def run(chk):
         'harness/c17_alloc.c: the checking MIR_alloc/MIR_code_alloc callbacks, the SIGSEGV handler, the --wrap interposition and the page diffing are trusted to log faithfully',
         'tools/tr_c17_sites.py (readelf -r over -O0 -ffunction-sections objects; regex over comment-stripped sources)',
         'OS: mprotect really prevents writes to READ|EXEC pages']
+    G.tree_flags(vlib.REPO)
     scen = []
     corpus = os.path.join(vlib.VERIF, 'corpus', 'c17_scripts.jsonl')
     if os.path.exists(corpus):
